@@ -826,8 +826,11 @@ def parse_sort_switch(fn, sw):
             nm, base = fn.callee_name(d['inner'][0])
             if nm != 'data': raise XlateError('sort data argument')
             d = base
-        groups.append((labels, rule, fam, d, args[1], swap_target))
+        groups.append((sorted(labels, reverse=True), rule, fam, d, args[1], swap_target))
     if not default_throws: raise XlateError('switch without throwing default')
+    # every case is `SortEigenvalue decl; swap; break`, so the order of the cases (and of the labels sharing one body) has no
+    # meaning: emit them in one canonical order, so that re-ordering cases in the source does not disturb the proofs
+    groups.sort(key=lambda g: (g[1], g[0]))
     return cond, groups
 
 def check_sort_class(tu):
